@@ -69,10 +69,17 @@ def plan(tier):
                                          "--shard", str(k), str(n)], True))
         jobs.append(("c14-O1-asan", ["--part", "guard", "--lmax", "39"], True))
         jobs.append(("c14-O1-asan", ["--part", "fs"], True))
+        jobs.append(("c14-O1-asan", ["--part", "fslong"], True))
+        for k in range(2):
+            jobs.append(("c14-O1-asan", ["--part", "long", "--lmax", "4200", "--lmain", "39", "--shard", str(k), "2"], True))
         return jobs
     # thorough (most informative parts first: a deadline then cuts the big exhaustive-content sweeps, not the structured part)
     jobs.append(("c14-O1-asan", ["--part", "guard", "--lmax", "71", "--wide-seeds", "1"], True))
     jobs.append(("c14-O1-asan", ["--part", "fs"], True))
+    jobs.append(("c14-O1-asan", ["--part", "fslong"], True))
+    n = 14
+    for k in range(n):
+        jobs.append(("c14-O1-asan", ["--part", "long", "--lmax", "16500", "--lmain", "71", "--wide-seeds", "1", "--shard", str(k), str(n)], True))
     n = 28
     for k in range(n):
         jobs.append(("c14-O1-asan", ["--part", "main", "--lmax", "71", "--pairs", "1", "--wide-seeds", "1", "--shard", str(k), str(n)], True))
@@ -84,6 +91,8 @@ def plan(tier):
             jobs.append((tag, ["--part", "main", "--lmax", "39", "--shard", str(k), "2"], False))
         jobs.append((tag, ["--part", "guard", "--lmax", "39"], False))
         jobs.append((tag, ["--part", "fs"], False))
+        jobs.append((tag, ["--part", "fslong"], False))
+        jobs.append((tag, ["--part", "long", "--lmax", "4200"], False))
     for k in range(n):   # all 256^4 four-byte keys, value only (no sanitizer), two seeds, offsets 0 and 1
         jobs.append(("c14-O2-nosan", ["--part", "full", "--len", "4", "--pairs", "1", "--two-seeds", "1", "--placements", "R", "--fills", "255",
                                       "--aligns", "0,1", "--shard", str(k), str(n)], True))
@@ -94,8 +103,16 @@ def _sort_key(v):
     a = [str(x) for x in (v.get("args") or [])]
     # the shortest / first case of every signature first (main part before guard pages before other builds), so that the
     # counterexample that gets reported does not depend on scheduling
-    rank = {"--one": 0, "--guard-one": 1, "--fs-one": 2}.get(a[0] if a else "", 3)
-    size = len(a[-1].strip("-")) if rank in (0, 2) else (int(a[2]) if rank == 1 else 0)
+    head = a[0] if a else ""
+    rank = {"--one": 0, "--long-one": 0, "--guard-one": 1, "--fs-one": 2, "--fs-long-one": 2}.get(head, 3)
+    if head == "--long-one":
+        size = 2 * int(a[5])
+    elif head == "--fs-long-one":
+        size = 2 * int(a[1])
+    elif rank in (0, 2):
+        size = len(a[-1].strip("-"))
+    else:
+        size = int(a[2]) if rank == 1 else 0
     return (v["sig"], 0 if v.get("harness") == "c14-O1-asan" else 1, rank, size, a)
 
 
@@ -156,7 +173,7 @@ def run(ctx):
             own_samples.setdefault(args[1], []).extend(sub.samples)
         ctx.viols += sub.viols
     # a few samples of every part
-    for part in ("main", "full", "guard", "fs"):
+    for part in ("main", "long", "full", "guard", "fs", "fslong"):
         for s in own_samples.get(part, [])[:3 if part == "main" else 1]:
             ctx.sample(s)
 
@@ -182,23 +199,28 @@ def run(ctx):
         "hash functions hash_bytes, murmur2_x86, murmur2_x64 of the real headers. MAIN: length 0..%d x content family {all bytes = v; one position = v over a 00 and an FF background%s; "
         "01 02 03..; FF FE FD..; ALL 256 one-byte and ALL 65536 two-byte keys} with v in {00,01,7F,80,FF} x seed {0,1,7FFFFFFF,80000000,FFFFFFFF,c70f6907,2^63,2^64-1%s} (truncated to 32 bit and "
         "de-duplicated for murmur2_x86) x placement {key ends at the last byte of an exact-size malloc block; 8 readable bytes behind the key} x start alignment 0..7 (key at offset a of a 16-aligned block) "
-        "x fill of all non-key bytes {00,FF}. FULL: %s. GUARD: every length x seed x {01 02 03.., FF FF..} with the key ending / starting exactly at an inaccessible page, in a forked child. "
+        "x fill of all non-key bytes {00,FF}. LONG: EVERY length 0..%d x EVERY offset 0..15 of a 16-aligned exact-size malloc block x seeds {0,c70f6907,all-ones%s} x 4 key patterns "
+        "(32-bit word counter (w+1)*2654435761 so that all 4- and 8-byte blocks differ; FF FE FD..; 00..00 80; 00 FF..FF). FULL: %s. GUARD: every length x seed x {01 02 03.., FF FF..} with the key ending / starting exactly at an inaccessible page, in a forked child. "
         "Every call is compared with refs/C14_murmur_ref.hpp (byte-wise little-endian MurmurHash2 / MurmurHash64A; checked against SMHasher's 27864C1E / 1F0D3804 at start) and followed by a "
         "look at AddressSanitizer's error flag. FS: all strings of length <= 3 over {00,'a',80,FF} built 4 ways in 7 fixed-string types (capacity 3,16,55,255,256; packed, size-field, strlen layouts) must "
-        "have one std::hash value. Plus the C01 explorer: std::hash of every reachable raw state (stale bytes included) of 4 layouts == hash of a freshly built equal string. "
+        "have one std::hash value; FSLONG: equal strings of EVERY length 0..400 in xbasic_fixed_string<char,400,buffer> objects constructed at offsets 0..7 of a byte array "
+        "(data() at every address mod 8) and in xbasic_fixed_string<char,400> must have one std::hash value. Plus the C01 explorer: std::hash of every reachable raw state (stale bytes included) of 4 layouts == hash of a freshly built equal string. "
         "evaluations = calls of a hash function (+ hash queries of the explorer). distinct_nontrivial = number of DISTINCT (function, seed, key bytes) triples with length >= 1 "
         "(contents are de-duplicated per length; the FULL part skips the contents of the MAIN part; alignments, fills and placements of one triple are NOT counted as distinct; "
         "re-runs on other builds and the explorer states are not counted), plus the non-empty strings of the FS part"
         % (39 if quick else 71,
            "" if quick else "; two positions = (v,w) over both backgrounds",
            "" if quick else ", 2^k and ~2^k for k = 0..63",
+           4200 if quick else 16500,
+           "" if quick else " and the other 5 base seeds",
            "all 2^24 three-byte keys x seeds {c70f6907, all-ones} x alignment 0..7, end-of-block placement, fill FF" if quick else
            "all 2^24 three-byte keys with every MAIN dimension (8 seeds); all 2^32 four-byte keys x seeds {c70f6907, all-ones} x offsets {0,1} on an -O2 build without sanitizer (values only); "
-           "MAIN (length <= 39), GUARD and FS repeated on g++ -O2, g++ -O0 and clang++ -O1 AddressSanitizer builds"))
+           "MAIN (length <= 39), LONG (length <= 4200), GUARD, FS and FSLONG repeated on g++ -O2, g++ -O0 and clang++ -O1 AddressSanitizer builds"))
     ctx.assumptions += [
         "x86-64 little-endian Linux, sizeof(size_t) == 8: hash_bytes is the MurmurHash64A branch; the 32-bit-platform branches of xhash.hpp are not reachable here",
         "reference = refs/C14_murmur_ref.hpp, trusted after reproducing the published SMHasher verification values of MurmurHash2 and MurmurHash64A",
-        "lengths above the bound (%d) and >= 2^32 (where murmur2_x86 truncates the length) are not enumerated; contents outside the stated families are not enumerated for lengths > %d" % (39 if quick else 71, 3 if quick else 4),
+        "lengths above %d are not enumerated (and >= 2^32, where murmur2_x86 truncates the length); lengths above %d only with the 4 LONG patterns at alignments 0..15 (end-of-block placement); "
+        "contents outside the stated families are not enumerated for lengths > %d" % (4200 if quick else 16500, 39 if quick else 71, 3 if quick else 4),
         "over-reads are judged by AddressSanitizer (g++ instrumentation, recover mode, byte-exact right red zone of malloc blocks; to the left only at offset 0) and by guard pages; "
         "a read of fewer than 8 bytes to the left of a key that starts at offset 1..7 is only visible if it changes the value",
         "the unaligned / type-punned uint32 load of murmur2_x86 (xhash.hpp:60) is not judged (UBSan alignment is off by design)",
